@@ -29,7 +29,7 @@ FORBIDDEN = re.compile(r"\b(sorry|admit|native_decide|bv_decide|implemented_by|u
 
 TRUSTED_BASE = [
     "Lean 4.33 kernel and Mathlib v4.33 as installed; axioms allowed: propext, Classical.choice, Quot.sound (audited by #print axioms on every run)",
-    "harness/translate.py and its plug-ins translate_layout.py / translate_nonlin.py / translate_metrics.py (Python ast -> Lean, incl. their stated semantics of the numpy / jax primitives) for the regenerated definitions",
+    "harness/translate.py and its plug-ins translate_{layout,nonlin,metrics,wiring,spectral2,guards,ic2}.py (Python ast -> Lean, incl. their stated semantics of the numpy / jax primitives) for the regenerated definitions",
     "the correspondence harness and driver I/O (hex float transfer, tolerance 1e-9*scale+1e-12 for numeric outputs, exact for integer outputs)",
     "modelled, not verified: IEEE-754 rounding/overflow, jnp.fft (as DFT sums), jnp.exp/sqrt/einsum/where, lax.scan, JAX tracing/jit/vmap/AD, jax.random, equinox",
 ]
